@@ -47,3 +47,11 @@ claim("C23",
       "Inductive step from an arbitrary allocation state (counter anywhere in [0,2^24), 0..2 quick / 0..4 thorough live channels with arbitrary distinct 24-bit ids, all solver variables): two consecutive real Transport._next_channel() calls with no registration in between (the window in which a peer open has reserved an id but released the lock) return ids that are not live, differ from each other, fit 24 bits, and leave the counter one past the last id; the same is proved for the id used by the real open_channel() and by the real _parse_channel_open() for every channel kind (session, direct-tcpip, x11, agent, forwarded-tcpip), which register exactly one channel under that id, or none when the application refuses.",
       "Trusted: z3; the channel tables are association lists in symbolic runs (the real ChannelMap hashes in C) and the real ChannelMap in replays; Transport is built without a socket. Thread interleavings inside _next_channel are excluded by Transport.lock (held at every call site, checked by reading).",
       design="7 (C23)")
+claim("C31",
+      "SFTPAttributes with solver-chosen presence flags, size 0..8, mode 0..0o777 and 31-bit times is packed and unpacked by the real wire code and handed to the real SFTPServer.set_file_attr over a one-file POSIX model holding <=3 (quick) / <=4 (thorough) symbolic bytes; z3 proves the new content is old[:size] zero-padded to size, content is untouched without a size change, chmod/utime receive exactly the given values and are not called for absent fields.",
+      "Trusted: z3; the os/open model (open 'w'/'w+' empties, truncate cuts or zero-extends), exercised against a real temporary file in every replay. chown is modelled but not asserted in replays (needs privileges). By-handle changes reach the same helper through the server implementation's chattr (StubSFTPHandle in the tests), which is outside paramiko proper.",
+      design="7 (C31)")
+claim("C42",
+      "The real BufferedFile.read/readline/readlines/__next__/write/flush/close/_write_all run over a stream of <=4 (quick) / <=6 (thorough) symbolic bytes over {a, LF, CR} (newline positions are solver-chosen) delivered in every possible chunking, for programs of <=3 operations (read(1), read(2), read(), readline(), readline(1), readline(2), next) and buffer sizes {-1,0,1,2,3}: z3 proves each call returns exactly the next bytes of the stream, a line ends at the first newline, the size limit or end of stream, tell() counts the bytes returned, a final read() returns the rest (nothing lost or reordered); writes of <=2 symbolic bytes with every partial-write length are delivered as a prefix, completely by flush/close, immediately when unbuffered and through the last newline when line-buffered.",
+      "Trusted: z3; BytesIO/bytearray/memoryview models. Binary mode only: universal-newline translation and text decoding change the bytes by design and are outside the claim; longer streams and programs are outside the bound.",
+      design="7 (C42)")
